@@ -981,6 +981,35 @@ def o_bandwidth(w, tr):
         return out
     m = float(cfg.max_bandwidth)
     thr = w.scn.get('bw_threshold') or 256 * 1024
+    # "a read of a failed or cancelled transfer raises that transfer's error instead of waiting on":
+    # a throttling sleep of a task of transfer i that begins after a read which itself came after
+    # the moment transfer i was recorded as failed/cancelled
+    term = {}
+    for e in tr.ev('field'):
+        if e[3]['name'] == '_status' and e[3]['cls'] == 'TransferCoordinator' and e[3]['value'] in ('failed', 'cancelled'):
+            term.setdefault(e[3]['oid'], e[0])
+    if term:
+        running = {}          # thread -> (transfer idx, start step)
+        last_read = {}
+        for e in w.sched.log:
+            step, tid, kind, pl = e[0], e[1], e[2], e[3]
+            if kind == 'ex.start' and pl['task'].startswith('t') and '.' in pl['task']:
+                try:
+                    running[tid] = int(pl['task'][1:pl['task'].index('.')])
+                except ValueError:
+                    running.pop(tid, None)
+            elif kind == 'ex.end':
+                running.pop(tid, None)
+                last_read.pop(tid, None)
+            elif kind == 'bw.read':
+                last_read[tid] = step
+            elif kind == 'sleep' and tid in running and running[tid] in term:
+                t0 = term[running[tid]]
+                if last_read.get(tid, -1) > t0 + 1:
+                    out.append(('C13:wiring:waited-after-failure',
+                                f'a task of transfer {running[tid]} went to sleep {pl["d"]:.3f}s for the bandwidth limit at step {step}, '
+                                f'in a read that started after the transfer was recorded as failed/cancelled at step {t0}'))
+                    break
     moves = []
     for kind in ('body.read', 'stream.read'):
         for e in tr.ev(kind):
